@@ -77,6 +77,17 @@ fn check_reported(rep: &mut Report, what: &str, mode: OffsetMode, reported: Opti
             json!({"reported": format!("{:?}", off), "ctx": ctx}),
         );
     }
+    // the written form of the reported cursors (what CSV and STAMQL carry) reads back as the same cursors
+    for c in [&off.begin, &off.end] {
+        let text = c.to_string();
+        match guard(|| Cursor::try_from(text.as_str())) {
+            Ok(Ok(back)) if back == *c => {}
+            other => rep.violation(
+                format!("C04/report/{}/{:?}/written-cursor-reads-back-differently/{}", what, mode, if matches!(c, Cursor::EndAligned(0)) { "end-aligned-zero" } else { "other" }),
+                json!({"cursor": format!("{:?}", c), "written": text, "read_back": format!("{:?}", other.map(|r| r.map_err(|e| e.to_string())).map_err(|p| p.msg)), "ctx": ctx}),
+            ),
+        }
+    }
     let cur = |c: &Cursor| match c {
         Cursor::BeginAligned(x) => Cur::B(*x),
         Cursor::EndAligned(x) => Cur::E(*x),
